@@ -386,6 +386,11 @@ func leafType(t types.Type, path string) types.Type {
 }
 
 func (r *Run) tryReplay(v *Result, rf *ReplayFile) {
+	defer func() {
+		if p := recover(); p != nil {
+			rf.Note += fmt.Sprintf("replay construction failed (%v); ", p)
+		}
+	}()
 	fi := r.W.Funcs[v.O.Func]
 	if fi == nil {
 		rf.Note = "no function info"
